@@ -1,5 +1,6 @@
 import Fabio.Driver.Proto
 import Fabio.Model.C13
+import Fabio.Model.C13Glue
 namespace Fabio.Driver.C13
 open Lean Fabio.Driver Fabio.Model.C13
 
@@ -118,10 +119,11 @@ def buildH : Handler := fun inp impl => do
     return ({ model := Json.mkObj [("code", mcode)], agree := false, spec := false, nontrivial := true,
               tag := if codeSpec t.code then "panic" else "code-not-3xx" } : Verdict).toJson
   let okOpts := t.strip == getS inp "strip" && t.prepend == getS inp "prepend"
-  let codeOK := codeSpec t.code
+  -- "receives the configured 3xx status": 0 or 3xx, and exactly the plain decimal reading of the option text
+  let codeOK := codeSpec t.code && codeSpecOpt redirectOpt t.code
   if !codeOK || t.code != mcode then
     return ({ model := Json.mkObj [("code", mcode)], agree := t.code == mcode, spec := codeOK, nontrivial := true,
-              tag := if codeOK then "code" else "code-not-3xx" } : Verdict).toJson
+              tag := if codeOK then "code" else if codeSpec t.code then "code-not-configured" else "code-not-3xx" } : Verdict).toJson
   if getB (getO impl "t") "odd" || (tmplParts t).1.isEmpty then
     return ({ model := Json.null, agree := true, spec := true, nontrivial := false, tag := "odd-template" } : Verdict).toJson
   let mreq := if targetOK target then parseTarget host target else none
@@ -192,9 +194,6 @@ def httpH : Handler := fun inp impl => do
   let err := (impl.getObjValAs? String "err").toOption.getD ""
   if err != "" then
     return ({ model := Json.null, agree := true, spec := true, nontrivial := false, tag := "harness-" ++ err } : Verdict).toJson
-  if getI impl "status" == -1 then
-    -- the connection was closed without a response: the handler panicked
-    return ({ model := Json.null, agree := false, spec := false, nontrivial := true, tag := "no-response" } : Verdict).toJson
   let host := getS inp "host"
   let target := getS inp "target"
   let tls := getB inp "tls"
@@ -222,6 +221,16 @@ def httpH : Handler := fun inp impl => do
       return ({ model := Json.null, agree := true, spec := hits == 0, nontrivial := false, tag := "server-400" } : Verdict).toJson
     let scheme := reqScheme xfp tls
     let res := lookup scheme req cands
+    let upgrade := getS inp "upgrade"
+    let accept := getS inp "accept"
+    let deniedL : List Bool := match getO impl "denied" with
+      | .arr a => a.toList.map (fun x => x == Json.bool true)
+      | _ => []
+    -- the verdict of the access gate for the selected target (oracle from the real AccessDeniedHTTP); no auth schemes
+    let idxOf (t : RTarget) : Nat := (cands.takeWhile (fun c => c != some t)).length
+    let denied := match res with | some (t, _) => deniedL.getD (idxOf t) false | none => false
+    let hdrTag := if equalFold upgrade (lit "websocket") then "+ws" else if accept == lit "text/event-stream" then "+sse"
+                  else if upgrade.isEmpty && accept.isEmpty then "" else "+hdr"
     -- specification on the implementation's answer
     let own (l : Loc) : Bool := l.scheme == scheme && l.host == hexEscapeNonASCII (escape .host host) &&
         (unescape l.path == some req.path)
@@ -230,29 +239,49 @@ def httpH : Handler := fun inp impl => do
         hits == 0 && redirectCands.any (fun t => t.code == status && locationSpec t host (escapedPath req) (rawPathOf target) req.rawQuery iloc) &&
         (match parseLoc iloc with | some l => !(own l) | none => false)
       else true
-    match res with
-    | some (t, some u) =>
-      let loc := hexEscapeNonASCII (urlString u)
+    -- the connection was closed without a response: the handler panicked — unless the request went down the
+    -- websocket path to a plain target (a raw pipe to an upstream that may not exist: the connection is hijacked)
+    let noResponse := status == -1
+    match res, serve res denied true upgrade accept with
+    | _, .upstream .websocket =>
+      return ({ model := Json.mkObj [("redirect", false), ("via", "websocket")], agree := !is3xx status && hits ≤ 1,
+                spec := specRedirect, nontrivial := false, tag := "proxy+ws" } : Verdict).toJson
+    | _, _ =>
+    if noResponse then
+      return ({ model := Json.null, agree := false, spec := false, nontrivial := true, tag := "no-response" } : Verdict).toJson
+    match res, serve res denied true upgrade accept with
+    | some (t, _), .forbidden =>
+      -- the access gate stands in front of the redirect branch (as coded): 403, nothing contacted
+      return ({ model := Json.mkObj [("status", 403), ("hits", 0)], agree := status == 403 && hits == 0,
+                spec := specRedirect && hits == 0, nontrivial := t.code ≠ 0,
+                tag := (if t.code ≠ 0 then "denied-redirect" else "denied-proxy") ++ hdrTag } : Verdict).toJson
+    | some (t, some u), .redirect code loc =>
       let skipped := (cands.takeWhile (fun c => c != some t)).any (fun c => match c with | some c => c.code ≠ 0 | none => false)
       let ownLoc := match parseLoc loc with | some l => own l | none => false
+      let _ := u
       let cls := if findingClasses.contains (classTag t req) then classTag t req
         else if ownLoc then "self-redirect-answered" else classTag t req
-      let tag := if findingClasses.contains cls then cls else (if skipped then "skip-then-redirect-" else "redirect-") ++ cls
-      return ({ model := Json.mkObj [("status", t.code), ("location", showB loc), ("hits", 0)],
-                agree := status == t.code && iloc == loc && hits == 0, spec := specRedirect && is3xx status, nontrivial := true,
+      let tag := if findingClasses.contains cls then cls else (if skipped then "skip-then-redirect-" else "redirect-") ++ cls ++ hdrTag
+      return ({ model := Json.mkObj [("status", code), ("location", showB loc), ("hits", 0)],
+                agree := status == code && iloc == loc && hits == 0, spec := specRedirect && is3xx status, nontrivial := true,
                 tag := tag } : Verdict).toJson
-    | some (t, none) =>
+    | some (t, _), .upstream via =>
       -- a plain route: proxied (the instrumented upstream answers 200) — or some other upstream of the pool
-      let idx := (cands.takeWhile (fun c => c != some t)).length
+      let idx := idxOf t
       let isUp : Bool := ups.getD idx false
       let skipped := (cands.take idx).any (fun c => match c with | some c => c.code ≠ 0 | none => false)
+      -- through the websocket handler the exchange is a raw pipe: only "no redirect, at most one contact" is compared
+      let _ := via
+      let agree := !is3xx status && (!isUp || (status == 200 && hits == 1))
       return ({ model := Json.mkObj [("redirect", false), ("upstream", isUp)],
-                agree := !is3xx status && (!isUp || (status == 200 && hits == 1)), spec := specRedirect, nontrivial := skipped,
-                tag := if skipped then "skip-then-proxy" else "proxy" } : Verdict).toJson
-    | none =>
+                agree := agree, spec := specRedirect, nontrivial := skipped,
+                tag := (if skipped then "skip-then-proxy" else "proxy") ++ hdrTag } : Verdict).toJson
+    | none, _ =>
       let skipped := cands.any (fun c => match c with | some c => c.code ≠ 0 | none => false)
       return ({ model := Json.mkObj [("status", 404)], agree := status == 404 && hits == 0, spec := specRedirect, nontrivial := skipped,
                 tag := if skipped then "skip-then-noroute" else "noroute" } : Verdict).toJson
+    | _, _ =>
+      return ({ model := Json.null, agree := false, spec := specRedirect, nontrivial := false, tag := "model-unreachable" } : Verdict).toJson
 
 /-! ### c13.concurrent -/
 
@@ -328,6 +357,92 @@ def seqH : Handler := fun inp impl => do
   return ({ model := Json.arr (rs.map (·.2.2)).toArray, agree := lenOK && rs.all (·.1), spec := lenOK && rs.all (·.2.1),
             nontrivial := reqs.length ≥ 2 && hostsSeen.length ≥ 2, tag := tag } : Verdict).toJson
 
+/-! ### c13.tag: a Consul `urlprefix-` tag with a redirect option, end to end -/
+
+def strList (j : Json) : List Str :=
+  match j with
+  | .arr a => a.toList.filterMap (fun x => match x with | .str s => some (bytesOf s) | _ => none)
+  | _ => []
+
+def tagH : Handler := fun inp impl => do
+  let err := (impl.getObjValAs? String "err").toOption.getD ""
+  let opts := getS inp "opts"
+  let host := getS inp "host"
+  let target := getS inp "target"
+  let xfp := getS inp "xfp"
+  let fs := fields opts
+  let lastR := lastRedirectField fs
+  let others := fs.filter (fun o => (passedOn o).isSome && !hasPrefix o kRedirect)
+  -- where the (last well-formed) redirect field stands among the options that are passed on
+  let posTag : String := match lastR with
+    | none => if fs.any (fun o => hasPrefix o kRedirect) then "malformed-redirect" else "no-redirect"
+    | some _ =>
+      let isR (o : Str) : Bool := hasPrefix o kRedirect && (passedOn o).isSome
+      let before := (fs.takeWhile (fun o => !isR o)).any (fun o => (passedOn o).isSome)
+      let after := ((fs.reverse.takeWhile (fun o => !isR o))).any (fun o => (passedOn o).isSome)
+      if others.isEmpty then "redirect-only" else if before && after then "redirect-middle" else if before then "redirect-last" else "redirect-first"
+  if err != "" then
+    -- the command was not emitted / not accepted (`denotes`, `route.NewTable`: C14's and C05's subject)
+    return ({ model := Json.null, agree := true, spec := true, nontrivial := false, tag := "cmd-" ++ err } : Verdict).toJson
+  let addr := getS impl "addr"
+  let t ← targetOf (getO impl "t")
+  let m := tagCmd addr opts
+  let mt := tagTarget addr opts
+  let iopts := strList (getO impl "opts")
+  let idst := getS impl "dst"
+  -- the option map of the command, both ways
+  let optsAgree := iopts.all (fun kv => optValue (keyVal kv).1 m.ropts == (keyVal kv).2 && m.ropts.any (fun o => (keyVal o).1 == (keyVal kv).1)) &&
+                   m.ropts.all (fun o => iopts.any (fun kv => (keyVal kv).1 == (keyVal o).1))
+  let cmdAgree := idst == m.dst && optsAgree && t.strip == mt.strip && t.prepend == mt.prepend && t.code == mt.code
+  -- specification: the tag's options whatever their order, the redirect field's code and URL
+  let laterProto := match lastR with
+    | none => false
+    | some _ => (fs.reverse.takeWhile (fun o => !(hasPrefix o kRedirect && (splitComma (o.drop kRedirect.length)).length == 2))).any
+                  (fun o => (protoSchemes.lookup o).isSome)
+  let cmdSpec := tagSpec opts t.strip t.prepend t.code &&
+    (match lastR with | some (_, url) => laterProto || idst == url | none => true)
+  let nontrivial := lastR.isSome && !others.isEmpty
+  let a := getO impl "answer"
+  let aerr := (a.getObjValAs? String "err").toOption.getD ""
+  if getB (getO impl "t") "odd" || (tmplParts t).1.isEmpty || host.isEmpty then
+    return ({ model := Json.null, agree := cmdAgree, spec := cmdSpec, nontrivial := false, tag := "odd-template-" ++ posTag } : Verdict).toJson
+  match (if targetOK target then parseTarget host target else none) with
+  | none =>
+    return ({ model := Json.mkObj [("err", "request")], agree := cmdAgree && aerr == "request", spec := cmdSpec, nontrivial := false,
+              tag := "request-rejected" } : Verdict).toJson
+  | some req =>
+    if aerr != "" || (a.getObjValAs? String "panic").isOk then
+      return ({ model := Json.null, agree := false, spec := false, nontrivial := true, tag := "panic-or-parse-" ++ posTag } : Verdict).toJson
+    let status := getI a "status"
+    let iloc := getS a "location"
+    -- the target as the specification reads it off the tag (URL as net/url parsed the destination)
+    let tspec : RTarget := { url := t.url, strip := lastPlainValue (lit "strip") fs, prepend := lastPlainValue (lit "prepend") fs,
+                             code := match lastR with | some (c, _) => configuredCode c | none => 0 }
+    let tm : RTarget := { url := t.url, strip := mt.strip, prepend := mt.prepend, code := mt.code }
+    let cls := classTag tm req
+    let fcls := findingClasses.contains cls
+    -- does the route match the request at all? (host/path matching is C03's subject: read off the answer's kind)
+    match handle (reqScheme xfp false) req [some tm] (fun _ => (false, true)) (getS inp "upgrade") (getS inp "accept") with
+    | .redirect code loc =>
+      if status == 404 && !getB a "hasloc" then
+        -- the request does not match the tag's host/path
+        return ({ model := Json.mkObj [("status", 404)], agree := cmdAgree, spec := cmdSpec, nontrivial := false, tag := "no-match-" ++ posTag } : Verdict).toJson
+      let locOK := status == tspec.code && locationSpec tspec host (escapedPath req) (rawPathOf target) req.rawQuery iloc
+      let ownAnswered := match parseLoc iloc with
+        | some l => l.scheme == reqScheme xfp false && l.host == hexEscapeNonASCII (escape .host host) && unescape l.path == some req.path
+        | none => false
+      return ({ model := Json.mkObj [("status", code), ("location", showB loc), ("dst", showB m.dst)],
+                agree := cmdAgree && status == code && iloc == loc, spec := cmdSpec && locOK && !ownAnswered, nontrivial := nontrivial,
+                tag := if fcls then cls else if ownAnswered then "self-redirect-answered" else posTag } : Verdict).toJson
+    | .noRoute =>
+      -- the redirect points at the request itself: skipped, no other route
+      return ({ model := Json.mkObj [("status", 404)], agree := cmdAgree && status == 404 && !getB a "hasloc", spec := cmdSpec && !is3xx status,
+                nontrivial := nontrivial, tag := "self-skip-" ++ posTag } : Verdict).toJson
+    | _ =>
+      -- not a redirect route (no or malformed redirect field, or a code outside 300..399): proxied
+      return ({ model := Json.mkObj [("redirect", false)], agree := cmdAgree && !is3xx status, spec := cmdSpec && (tspec.code ≠ 0 || !is3xx status),
+                nontrivial := false, tag := "proxied-" ++ posTag } : Verdict).toJson
+
 def streams : List (String × Handler) :=
-  [("c13.build", buildH), ("c13.url", urlH), ("c13.http", httpH), ("c13.concurrent", concH), ("c13.sequence", seqH)]
+  [("c13.build", buildH), ("c13.url", urlH), ("c13.http", httpH), ("c13.concurrent", concH), ("c13.sequence", seqH), ("c13.tag", tagH)]
 end Fabio.Driver.C13
